@@ -154,6 +154,45 @@ func trieStep(c c15Case, probes []string) (key string, out core.Outcome) {
 			return
 		}
 		key, fail = trieKey(t)
+		if fail != "" {
+			return
+		}
+		// Second pass: the same transition with every observer called BEFORE the operation as well
+		// (and once in the middle of the history). Observers are pure, so this must change nothing;
+		// anything an observer builds lazily and an operation forgets to drop shows here.
+		t2 := trie.New()
+		m2 := ref.TrieSet{}
+		for i, op := range c.Hist {
+			if i == len(c.Hist)/2 {
+				if f := observeTrie(t2, m2, probes, fmt.Sprintf("(observed pass) after %d operations of the history", i)); f != "" {
+					fail = f
+					return
+				}
+			}
+			if f := applyTrieOp(t2, m2, string(op)); f != "" {
+				fail = "while replaying history (observed pass): " + f
+				return
+			}
+		}
+		if f := observeTrie(t2, m2, probes, "(observed pass) before "+string(c.Op)); f != "" {
+			fail = f
+			return
+		}
+		if _, f := trieKey(t2); f != "" {
+			fail = f
+			return
+		}
+		if f := applyTrieOp(t2, m2, string(c.Op)); f != "" {
+			fail = "(observed pass) " + f
+			return
+		}
+		if f := observeTrie(t2, m2, probes, "after "+string(c.Op)+" when Has/ForEach/MarshalJSON had been called before it"); f != "" {
+			fail = f
+			return
+		}
+		if k2, _ := trieKey(t2); k2 != key {
+			fail = fmt.Sprintf("the state after %s differs when observers were called before it: %s vs %s", c.Op, k2, key)
+		}
 	})
 	if p != "" {
 		return "", core.Failf("history %v op %q panicked: %s", c.Hist, c.Op, p)
@@ -444,7 +483,7 @@ func runC15(r *core.Run) {
 			return out
 		}
 		m := core.Begin(r, name, core.Opts{
-			Rule:   "explicit-state BFS: every reachable trie state x every Add(w)/Delete(w), w over the alphabet up to the word length; each transition replayed on a fresh real trie next to the set model and observed (Delete result, Has on all probes, ForEach multiset, argument aliasing); once per state the JSON-rebuild differential incl. every operation on the rebuilt copy; non-trivial = history length >= 1",
+			Rule:   "explicit-state BFS: every reachable trie state x every Add(w)/Delete(w), w over the alphabet up to the word length; each transition replayed on a fresh real trie next to the set model and observed (Delete result, Has on all probes, ForEach multiset, argument aliasing), once with observers only after the operation and once with Has/ForEach/MarshalJSON also called before it and in the middle of the history (both passes must reach the same state); once per state the JSON-rebuild differential incl. every operation on the rebuilt copy; non-trivial = history length >= 1",
 			Bounds: fmt.Sprintf("alphabet %q, words up to %d, %d operations, probes up to length %d", cf.sigma, cf.d, len(ops), cf.d+1),
 		}, check)
 		if m == nil {
